@@ -14,8 +14,8 @@ import time
 from . import core, pool
 
 PROP = "C16"
-NITEMS = {"quick": 160, "thorough": 1600}
-NSEEDS = {"quick": 8, "thorough": 48}
+NITEMS = {"quick": 160, "thorough": 1000}
+NSEEDS = {"quick": 8, "thorough": 16}
 SHARD = 40
 
 ORDER_PROBES = [
@@ -23,6 +23,36 @@ ORDER_PROBES = [
     "E: E '+' E | E '-' E | E '*' E | E '/' E | '(' E ')' | n; terminals n: /\\d+/;",
     "S: A B C D; A: 'x'; B: 'y'; C: 'z'; D: 'w' | 'v' | 'u';",
 ]
+
+
+START_BUDGET = 2_000_000
+
+
+def child_start_budget(text, recs, t):
+    """Simulated process: does the table for this entry point build within the
+    deterministic step budget?"""
+    from parglare import Grammar
+    from parglare.closure import LR_0, LR_1
+    from parglare.tables import create_table
+
+    clock = core.StepClock(START_BUDGET).start()
+    try:
+        try:
+            rec = {k: pool.RECOGNIZERS[v] for k, v in (recs or {}).items()}
+            g = Grammar.from_string(text, recognizers=rec or None)
+            pid = g.get_production_id(t["start"])
+            kw = {"start_production": pid} if pid is not None else {}
+            if t.get("ld") is not None:
+                kw["lexical_disambiguation"] = t["ld"]
+            create_table(g, itemset_type=LR_0 if t["tables"] == "SLR" else LR_1,
+                         prefer_shifts=t["ps"], prefer_shifts_over_empty=t["pse"], **kw)
+        except core.StepBudgetExceeded:
+            return False
+        except Exception:
+            pass
+    finally:
+        clock.stop()
+    return not clock.exceeded
 
 
 def gen_items(vseed, tier, n):
@@ -40,6 +70,13 @@ def gen_items(vseed, tier, n):
         if len(sc["models"][v].rules) > 1 and rng.random() < 0.3:
             # the first table is built for ANOTHER entry point of the grammar
             tables[0] = dict(tables[0], start=rng.choice(sc["models"][v].nts()[1:]))
+            # create_table does not terminate for every (grammar, entry point) - e.g.
+            # S: 'a' B | A | B S 'a' | 'a'; A: 'a' | B A; B: 'a' A B | 'a'; from A, LALR,
+            # grows to 8 GB.  Termination of table construction is not C16: such an
+            # entry point is dropped here, once, under hash seed 0 (no PRNG draw).
+            if not core.call_or_raise(child_start_budget, sc["texts"][v], sc["recognizers"][v],
+                                      tables[0], timeout=600):
+                del tables[0]["start"]
         elif rng.random() < 0.5:
             # same automaton options, other scanning option, on one Grammar object
             tables[1] = dict(tables[0], ld=rng.choice(
@@ -67,7 +104,7 @@ def gen_items(vseed, tier, n):
     return items[:n]
 
 
-NEPS = {"quick": 700, "thorough": 5000}
+NEPS = {"quick": 700, "thorough": 2000}
 
 
 def gen_eps_items(vseed, tier):
@@ -124,7 +161,7 @@ def run_workers(jobs, base):
     maxp = core.n_workers()
     pending = list(jobs)
     worker = os.path.join(os.path.dirname(os.path.abspath(__file__)), "c16_worker.py")
-    deadline = time.monotonic() + 3000
+    deadline = time.monotonic() + max(3000, core.POOL_WALL["value"])
 
     def start(job):
         hs, sh, work = job
